@@ -5,6 +5,8 @@ import (
 	"go/types"
 	"sort"
 
+	"golang.org/x/tools/go/cfg"
+
 	"lachk/core"
 )
 
@@ -85,20 +87,15 @@ type c21RowApply struct {
 	jg     int
 }
 
-func c21StampRows(c *core.Ctx, f *core.FuncInfo, view *c21View, applies []c21Apply, accepting func(core.Point) bool) (keeper *types.Var, keeperOK bool) {
-	keeperOK = true
+func c21StampRows(c *core.Ctx, f *core.FuncInfo, view *c21View, keeper *c21Keeper, applies []c21Apply, accepting func(core.Point) bool) {
 	rows := map[string][]c21RowApply{}
 	for _, ap := range applies {
-		c.Need(len(ap.CS.Call.Args) == 2, "apply(wait, err)")
+		if ap.Wait == nil {
+			c.Undecided("keeper update of an unrecognised form", "T8 DecisionTable", ap.Pos, "the keeper's wait is assigned by a multi-value or arithmetic form")
+			continue
+		}
 		frames, pts := ap.chain()
 		leaf := frames[len(frames)-1]
-		// the keeper all waits go into
-		kfr, ke := c21Resolve(ap.Fr, ap.CS.Recv())
-		kv := varOf(kfr.F, ke)
-		if kv == nil || !c19Within(f.Body, kv.Pos()) || (keeper != nil && keeper != kv) {
-			keeperOK = false
-		}
-		keeper = kv
 		// which timestamp's test guards this apply?
 		type cand struct {
 			stamp string
@@ -113,7 +110,7 @@ func c21StampRows(c *core.Ctx, f *core.FuncInfo, view *c21View, applies []c21App
 				}
 			}
 		}
-		mentioned := view.stampsFlow(ap.Fr, ap.CS.Call.Args[0])
+		mentioned := view.stampsFlow(ap.Fr, ap.Wait)
 		if len(cands) > 1 && len(mentioned) == 1 {
 			for _, cd := range cands {
 				if cd.stamp == mentioned[0] {
@@ -125,11 +122,11 @@ func c21StampRows(c *core.Ctx, f *core.FuncInfo, view *c21View, applies []c21App
 		case len(cands) == 1:
 		case len(cands) == 0 && len(mentioned) == 1:
 			_, wit := leaf.F.GuardedBy(pts[len(pts)-1], view.recent(leaf, mentioned[0]))
-			c.Fail(mentioned[0]+"|wait recorded exactly when since < threshold", "T4 GuardedBy", ap.CS.Pos(), "the wait for "+mentioned[0]+" is recorded under a different test: "+leaf.F.DescribePath(wit))
+			c.Fail(mentioned[0]+"|wait recorded exactly when since < threshold", "T4 GuardedBy", ap.Pos, "the wait for "+mentioned[0]+" is recorded under a different test: "+leaf.F.DescribePath(wit))
 			c21CheckSaturating(c, view, ap, mentioned[0])
 			continue
 		default:
-			c.Undecided("apply site without a recognisable timestamp", "T8 DecisionTable", ap.CS.Pos(), "cannot tell which single timestamp this wait belongs to (tests on the way: "+joinStr(func() []string {
+			c.Undecided("apply site without a recognisable timestamp", "T8 DecisionTable", ap.Pos, "cannot tell which single timestamp this wait belongs to (tests on the way: "+joinStr(func() []string {
 				var s []string
 				for _, cd := range cands {
 					s = append(s, cd.stamp)
@@ -145,12 +142,15 @@ func c21StampRows(c *core.Ctx, f *core.FuncInfo, view *c21View, applies []c21App
 				foreign = append(foreign, m)
 			}
 		}
-		c.Check(len(foreign) == 0, stamp+"|wait is the remaining time of the tested timestamp", "provenance", ap.CS.Pos(), "the wait recorded under the test of "+stamp+" talks about no other timestamp", "the wait recorded under the test since("+stamp+") < threshold is computed from "+joinStr(foreign)+": the remaining time reported (and compared by the keeper) is that of another timestamp")
+		c.Check(len(foreign) == 0, stamp+"|wait is the remaining time of the tested timestamp", "provenance", ap.Pos, "the wait recorded under the test of "+stamp+" talks about no other timestamp", "the wait recorded under the test since("+stamp+") < threshold is computed from "+joinStr(foreign)+": the remaining time reported (and compared by the keeper) is that of another timestamp")
 		// error argument: a package-level error variable (non-nil)
-		efr, ee := c21Resolve(ap.Fr, ap.CS.Call.Args[1])
-		ev, _ := efr.F.ObjOf(ee).(*types.Var)
-		okE := ev != nil && ev.Pkg() != nil && ev.Parent() == ev.Pkg().Scope()
-		c.Check(okE, stamp+"|refusal carries an error", "T8 DecisionTable", ap.CS.Pos(), "apply receives a package-level error value", "the wait is recorded without an error (emission would be permitted)")
+		okE := false
+		if ap.Err != nil {
+			efr, ee := c21Resolve(ap.Fr, ap.Err)
+			ev, _ := efr.F.ObjOf(ee).(*types.Var)
+			okE = ev != nil && ev.Pkg() != nil && ev.Parent() == ev.Pkg().Scope()
+		}
+		c.Check(okE, stamp+"|refusal carries an error", "T8 DecisionTable", ap.Pos, "apply receives a package-level error value", "the wait is recorded without an error (emission would be permitted)")
 		c21CheckSaturating(c, view, ap, stamp)
 		rows[stamp] = append(rows[stamp], c21RowApply{ap, frames, pts, cands[0].j})
 	}
@@ -170,7 +170,7 @@ func c21StampRows(c *core.Ctx, f *core.FuncInfo, view *c21View, applies []c21App
 			}
 		}
 		if !same {
-			c.Undecided(stamp+"|one test per timestamp", "T8 DecisionTable", first.ap.CS.Pos(), "the waits for "+stamp+" are recorded under tests in different activations; the rule relates a row to one since("+stamp+") < threshold test")
+			c.Undecided(stamp+"|one test per timestamp", "T8 DecisionTable", first.ap.Pos, "the waits for "+stamp+" are recorded under tests in different activations; the rule relates a row to one since("+stamp+") < threshold test")
 			continue
 		}
 		c.Pass(stamp+"|wait recorded exactly when since < threshold", "T4 GuardedBy", "apply is reached only on the since("+stamp+") < threshold edge of the same timestamp")
@@ -189,6 +189,23 @@ func c21StampRows(c *core.Ctx, f *core.FuncInfo, view *c21View, applies []c21App
 				}
 			}
 		}
+		// an update may be skipped only over "the value it would store is not longer than the kept one"
+		skip := func(fr *c21Frame) func(*cfg.Block, int) bool {
+			var preds []func(*cfg.Block, int) bool
+			for _, ra := range row {
+				if ra.ap.Fr == fr {
+					preds = append(preds, c19Edges(fr.F, keeper.notLonger(ra.ap)))
+				}
+			}
+			return func(b *cfg.Block, s int) bool {
+				for _, p := range preds {
+					if p(b, s) {
+						return true
+					}
+				}
+				return false
+			}
+		}
 		var sure func(fr *c21Frame) []core.Point
 		sure = func(fr *c21Frame) []core.Point {
 			var out []core.Point
@@ -198,7 +215,7 @@ func c21StampRows(c *core.Ctx, f *core.FuncInfo, view *c21View, applies []c21App
 					out = append(out, pt)
 					continue
 				}
-				if _, miss := (core.PathQuery{F: sub.F, From: sub.F.Entry(), Avoid: core.PointSet(sure(sub)...), TargetExit: true}).Find(); !miss {
+				if _, miss := (core.PathQuery{F: sub.F, From: sub.F.Entry(), Avoid: core.PointSet(sure(sub)...), AvoidEdge: skip(sub), TargetExit: true}).Find(); !miss {
 					out = append(out, pt)
 				}
 			}
@@ -208,11 +225,11 @@ func c21StampRows(c *core.Ctx, f *core.FuncInfo, view *c21View, applies []c21App
 		okAlways := true
 		sureG := core.PointSet(sure(guard)...)
 		for _, e := range edgesWithFact(g, view.recent(guard, stamp)) {
-			if _, miss := (core.PathQuery{F: g, From: blockEntry(e.B.Succs[e.Succ]), Avoid: sureG, TargetExit: true}).Find(); miss {
+			if _, miss := (core.PathQuery{F: g, From: blockEntry(e.B.Succs[e.Succ]), Avoid: sureG, AvoidEdge: skip(guard), TargetExit: true}).Find(); miss {
 				okAlways = false
 			}
 		}
-		c.Check(okAlways, stamp+"|too-recent timestamp always records a wait", "T3 PostDominates", first.ap.CS.Pos(), "the since < threshold edge always reaches apply", "a too-recent "+stamp+" can be ignored")
+		c.Check(okAlways, stamp+"|too-recent timestamp always records a wait", "T3 PostDominates", first.ap.Pos, "the since < threshold edge always reaches apply", "a too-recent "+stamp+" can be ignored")
 		// the test is made before emission is permitted: no accepting path skips both the applies and the
 		// since >= threshold edge
 		okTested := true
@@ -220,9 +237,10 @@ func c21StampRows(c *core.Ctx, f *core.FuncInfo, view *c21View, applies []c21App
 		var witF *core.FuncInfo
 		for j := 0; j <= first.jg; j++ {
 			fr := first.frames[j]
-			q := core.PathQuery{F: fr.F, From: fr.F.Entry(), Avoid: core.PointSet(may[fr]...)}
+			q := core.PathQuery{F: fr.F, From: fr.F.Entry(), Avoid: core.PointSet(may[fr]...), AvoidEdge: skip(fr)}
 			if j == first.jg {
-				q.AvoidEdge = c19Edges(fr.F, view.notRecent(fr, stamp))
+				old, nr := q.AvoidEdge, c19Edges(fr.F, view.notRecent(fr, stamp))
+				q.AvoidEdge = func(b *cfg.Block, s int) bool { return old(b, s) || nr(b, s) }
 			}
 			if j == 0 {
 				q.Target = accepting
@@ -237,7 +255,7 @@ func c21StampRows(c *core.Ctx, f *core.FuncInfo, view *c21View, applies []c21App
 		if witF != nil {
 			detail = witF.DescribePath(witT)
 		}
-		c.Check(okTested, stamp+"|tested before emission is permitted", "T8 DecisionTable", first.ap.CS.Pos(), "every path to the permitting return records the wait for "+stamp+" or takes the since("+stamp+") >= threshold edge", "SyncedToEmit can return its result (permit emission, or report a wait that is not the longest) on a path that never compared since("+stamp+") with the threshold: "+detail)
+		c.Check(okTested, stamp+"|tested before emission is permitted", "T8 DecisionTable", first.ap.Pos, "every path to the permitting return records the wait for "+stamp+" or takes the since("+stamp+") >= threshold edge", "SyncedToEmit can return its result (permit emission, or report a wait that is not the longest) on a path that never compared since("+stamp+") with the threshold: "+detail)
 	}
 	var missing []string
 	for _, s := range c21Stamps {
@@ -247,5 +265,4 @@ func c21StampRows(c *core.Ctx, f *core.FuncInfo, view *c21View, applies []c21App
 	}
 	sort.Strings(missing)
 	c.Check(len(missing) == 0, "all five timestamps are tested", "T8 field coverage", f.Pos(), "LastConnected, P2PSynced, BecameValidator, ExternalSelfEventCreated, ExternalSelfEventDetected each have a test", "timestamps without a since < threshold test: "+joinStr(missing))
-	return keeper, keeperOK
 }
